@@ -15,12 +15,12 @@ MANIFEST = dict(
          "(C01_replay_step_x); induction over histories of any length of paced covered operations INCLUDING directory move-outs "
          "followed by any covered operation (re-creating the old name, renaming a former ancestor - the F10b/F10c histories), from "
          "construct() and on the Pipeline model through delay queue and grouping (C01_sequential_partial, C01_from_start_partial, "
-         "C01_sequential_pipeline_partial, C01_pipeline_from_start_partial); F10d (directory comes back) is replayed by "
-         "vm_compute on the repaired model and refuted on the pinned one (C01_f10_repaired, C01_f10d_pinned_refuted). Extra "
+         "C01_sequential_pipeline_partial, C01_pipeline_from_start_partial); a directory moved INTO the tree with its content (DirCreated + one synthetic created event per descendant of os.walk: C01_movein_listing, C01_replay_step_in) is an operation of all these theorems, so F10d (directory leaves and comes back) is an instance (C01_f10d_ops_x1, C01_f10d_instance) "
+         "and is refuted on the pinned code (C01_f10d_pinned_refuted). Extra "
          "hypotheses of the move-out theorems: full event mask; the operation right after a move-out acts in a directory of "
          "the tree and not inside the departed directory. Read cuts inside a block are covered: the block AOp o; ARead n1..nj (any cut of the operation's records); ATick delay; AEmit.. delivers what the one-read block delivers - a rename whose halves fall into different reads is still paired through the delay queue (C01_tie_cuts, C01_sequential_pipeline_cuts_partial, C01_pipeline_from_start_cuts_partial). Not theorems (stated as C01_replay_full / C01_sequential_full, carried "
          "by the lock-step correspondence + the replay oracle against os.walk): bursts (several operations before a read) and reads that straddle two operations, "
-         "directory move-in and directory-over-directory replay, two directory move-outs back to back.",
+         "a directory moved in over an empty directory and directory-over-directory replay, two directory move-outs back to back.",
     note="Trusted: Coq kernel; the kernel model is validated, not proved; reader/emitter steps are atomic w.r.t. file-system "
          "operations (gates at poll() and read_event()). See coq/Props/C01.v for exactly which part of the replay law is a "
          "theorem and which is carried by the sampled correspondence.",
